@@ -5,5 +5,5 @@ From Coq Require Import ExtrOcamlBasic.
 From C14 Require Import Model.
 Extraction Language OCaml.
 Cd "ocaml".
-Extraction "model.ml" int_run dom_run fixed_RnsToRing cra_reduce cra_noreduce cra_reduce_fixed poly_RnsToRing poly_RingToRns poly_ComputeCk lift_run dom_RnsToRing dom_mk bal_run int_mk int_mk_tt fixed_tree.
+Extraction "model.ml" int_run dom_run fix_run dom_exc_run cra_reduce cra_noreduce cra_reduce_fixed poly_RnsToRing poly_RingToRns poly_ComputeCk lift_run dom_RnsToRing dom_mk bal_run int_mk int_mk_tt fixed_tree.
 Cd "..".
